@@ -46,13 +46,13 @@ def gen_prog(rng, tid, nops, cap, sink):
             suffix = ":%d|c" % j
             k = max(0, target - len(base) - len(suffix))
             key = base + "k" * k
-            ops.append("C" + hx(key.encode()))
+            ops.append(("G" if rng.random() < 0.08 else "C") + hx(key.encode()))     # G / g: from a destructor while unwinding
         else:
             base = "t%d.%d" % (tid, j)
             suffix = ":1|g"
             k = max(0, target - len(base) - len(suffix))
             m = base + "e" * k + suffix
-            ops.append("E" + hx(m.encode()))
+            ops.append(("g" if rng.random() < 0.08 else "E") + hx(m.encode()))
     return ops
 
 
